@@ -214,7 +214,7 @@ func (calc *convexHullCalculator) padArray3(pts []float64) []float64 {
 		if i < len(pts) {
 			pad[i] = pts[i]
 		} else {
-			pad[i] = pts[0]
+			pad[i] = pts[i%calc.stride]
 		}
 	}
 	return pad
